@@ -578,11 +578,11 @@ def drive(rep, tier, seed, wd, mc_strings):
     progs = c15lib.corpus()
     groups = []      # (generator name, texts, how judged)
     q = tier == "quick"
-    groups.append(("alt", alternates(mc_strings, rng, 7000 if q else 150000), "full"))
+    groups.append(("alt", alternates(mc_strings, rng, 7000 if q else 60000), "full"))
     groups.append(("corpus", list(progs), "full"))
-    groups.append(("soup", gen_soups(rng, 1500 if q else 20000), "full"))
+    groups.append(("soup", gen_soups(rng, 1500 if q else 10000), "full"))
     sample = progs if not q else rng.sample(progs, min(len(progs), 220))
-    groups.append(("mutation", gen_mutations(rng, sample, 4 if q else 20), "full"))
+    groups.append(("mutation", gen_mutations(rng, sample, 4 if q else 10), "full"))
     delims, towers = gen_delims(rng, 150 if q else 2000, DEPTH[tier], 150 if q else 400)
     groups.append(("delims", delims, "full"))
     groups.append(("towers", towers, "protocol"))
